@@ -68,9 +68,11 @@ func stapleOCSP(ctx context.Context, ocspConfig OCSPConfig, storage Storage, cer
 	ocspStapleKey := StorageKeys.OCSPStaple(cert, pemBundle)
 	cachedOCSP, err := storage.Load(ctx, ocspStapleKey)
 	if err == nil {
-		resp, err := ocsp.ParseResponse(cachedOCSP, nil)
+		// the stored staple must be a response for this very certificate (and be
+		// signed for its issuer, if the chain has it); otherwise it is as good as corrupt
+		resp, err := ocsp.ParseResponseForCert(cachedOCSP, cert.Leaf, issuerFromChain(cert))
 		if err == nil {
-			if freshOCSP(resp) {
+			if freshOCSP(resp) && currentOCSP(resp) {
 				// staple is still fresh; use it
 				ocspBytes = cachedOCSP
 				ocspResp = resp
@@ -230,12 +232,36 @@ func getOCSPForCert(ocspConfig OCSPConfig, bundle []byte) ([]byte, *ocsp.Respons
 		return nil, nil, fmt.Errorf("reading OCSP response: %v", err)
 	}
 
-	ocspRes, err := ocsp.ParseResponse(ocspResBytes, issuerCert)
+	ocspRes, err := ocsp.ParseResponseForCert(ocspResBytes, issuedCert, issuerCert)
 	if err != nil {
 		return nil, nil, fmt.Errorf("parsing OCSP response: %v", err)
 	}
+	if !currentOCSP(ocspRes) {
+		return nil, nil, fmt.Errorf("OCSP response is not within its validity period (this update: %s, next update: %s)",
+			ocspRes.ThisUpdate, ocspRes.NextUpdate)
+	}
 
 	return ocspResBytes, ocspRes, nil
+}
+
+// currentOCSP returns true if the current time is within resp's
+// validity period. A response without NextUpdate does not expire.
+func currentOCSP(resp *ocsp.Response) bool {
+	now := time.Now()
+	return !now.Before(resp.ThisUpdate) && (resp.NextUpdate.IsZero() || !now.After(resp.NextUpdate))
+}
+
+// issuerFromChain returns the certificate following the leaf
+// in cert's chain (its issuer), or nil if there is none.
+func issuerFromChain(cert *Certificate) *x509.Certificate {
+	if len(cert.Certificate.Certificate) < 2 {
+		return nil
+	}
+	issuer, err := x509.ParseCertificate(cert.Certificate.Certificate[1])
+	if err != nil {
+		return nil
+	}
+	return issuer
 }
 
 // freshOCSP returns true if resp is still fresh,
